@@ -1,4 +1,5 @@
-use std::io;
+use std::fs::File;
+use std::io::{self, BufRead, BufReader};
 
 use crate::builtins::utils::print_stderr_with_capture;
 use crate::shell::Shell;
@@ -38,6 +39,26 @@ pub fn run(sh: &mut Shell, cl: &CommandLine, cmd: &Command,
         if let Some(redirect_from) = &cmd.redirect_from {
             buffer.push_str(&redirect_from.1);
             buffer.push('\n');
+        }
+    } else if cmd.has_redirect_from() {
+        // read NAME < file
+        let path = match &cmd.redirect_from {
+            Some(x) => x.1.clone(),
+            None => String::new(),
+        };
+        match File::open(&path) {
+            Ok(f) => {
+                if let Err(e) = BufReader::new(f).read_line(&mut buffer) {
+                    let info = format!("cicada: read: {}: {}", path, e);
+                    print_stderr_with_capture(&info, &mut cr, cl, cmd, capture);
+                    return cr;
+                }
+            }
+            Err(e) => {
+                let info = format!("cicada: read: {}: {}", path, e);
+                print_stderr_with_capture(&info, &mut cr, cl, cmd, capture);
+                return cr;
+            }
         }
     } else {
         match io::stdin().read_line(&mut buffer) {
